@@ -255,5 +255,39 @@ fn main() {
         });
     }
     let _ = gen::game_mode(0);
+    // the neighbourhood of a slider's end: a straight slider of 200..=300 px (1.4 to 2.1 beats) followed by a circle 1 to 40 ms
+    // after its end, then another circle — converters cut sliders into hits with a tolerance at the end, the next object
+    // may fall before the last emitted hit
+    {
+        let lens: Vec<u16> = (200..=300).step_by(5).collect();
+        let gaps = [1u32, 5, 10, 16, 25, 40];
+        let presets = [vh::gen::DiffPreset::D0, vh::gen::DiffPreset::D3];
+        let total = (lens.len() * gaps.len() * presets.len()) as u64;
+        let kms = key_mods(false);
+        ctx.universe("slider-end-neighbourhood/len-200..300-x-gap-1..40", total, |idx, l| {
+            let mut r = idx as usize;
+            let len = lens[r % lens.len()];
+            r /= lens.len();
+            let gap = gaps[r % gaps.len()];
+            let preset = presets[r / gaps.len()];
+            let o = |kind, gap| vh::gen::Obj { kind, gap, pos: PosK::Far, sound: 0, col: 0 };
+            let spec = vh::gen::MapSpec { diff: preset, ..vh::gen::MapSpec::new(0, vec![o(Kind::Circle, 0), o(Kind::SliderLen(len), 300), o(Kind::Circle, vh::gen::END_REL + gap), o(Kind::Circle, 200)]) };
+            let map = spec.decode();
+            l.states(1);
+            l.nontrivial();
+            for (keys, m) in &kms {
+                for target in 1..4u8 {
+                    let mode = vh::gen::game_mode(target);
+                    let Ok(conv) = map.clone().convert(mode, &m.build(mode)) else { continue };
+                    l.checked(1);
+                    let _ = keys;
+                    if let Some(msg) = well_formed(&conv) {
+                        l.violation(&format!("{}_form", ["osu", "taiko", "catch", "mania"][target as usize]), || format!("target={mode:?} mods={m:?}: {msg}\nspec={}\n--- .osu ---\n{}", spec.describe(), spec.text()));
+                        return;
+                    }
+                }
+            }
+        });
+    }
     ctx.finish();
 }
